@@ -19,7 +19,7 @@ fn space_for(tier: Tier) -> (Space, usize) {
             s.ast("K", 5, 64).ast("U", 3, 64).ast("GCM", 4, 64).ast("GCE", 3, 64);
             s.ast_range("CL", 1, 4, 64, 2);
             s.ast("ALTC", 5, 64);
-            s.ast_range("LP", 1, 3, 32, 5);
+            s.ast_range("LP", 1, 3, 32, 5).ast_range("LPI", 1, 3, 32, 5);
             s.ast_range("ALT", 1, 3, 32, 4);
             s.ast_range("FX", 1, 4, 32, 6).ast_range("HI", 1, 4, 32, 4).ast_range("DUP", 1, 4, 16, 4);
             s.ast_range("G", 1, 5, 64, 4).ast_range("BR", 1, 3, 64, 4).ast_range("BR3", 1, 5, 64, 4);
@@ -29,7 +29,7 @@ fn space_for(tier: Tier) -> (Space, usize) {
         }
         Tier::Thorough => {
             s.ast("K", 5, 64).ast("U", 5, 64).ast("CL", 4, 64).ast("GC", 5, 64).ast("GCM", 5, 64).ast("GCE", 4, 64).ast("ALTC", 6, 64);
-            s.ast_range("LP", 1, 4, 32, 6);
+            s.ast_range("LP", 1, 4, 32, 6).ast_range("LPI", 1, 3, 32, 5).ast_range("LPI", 4, 4, 32, 4);
             s.ast_range("ALT", 1, 4, 32, 4);
             s.ast_range("FX", 1, 4, 32, 6).ast_range("HI", 1, 4, 32, 4).ast_range("DUP", 1, 4, 16, 4);
             s.ast_range("G", 1, 6, 64, 4).ast_range("BR", 1, 4, 64, 4).ast_range("BR3", 1, 5, 64, 4);
